@@ -7,6 +7,20 @@ export CARGO_NET_OFFLINE=true
 SEED="${VERIF_SEED:-1}"
 mkdir -p target/c14 ../replays/C14
 rc=0
+TSAN_STATE="not run"; MIRI_STATE="not run"
+note_stage() {
+    python3 - "$1" "$2" <<'PY'
+import json, os, sys
+d = os.environ.get("VERIF_EVIDENCE_DIR", "/verif/evidence")
+p = os.path.join(d, "C14.json")
+try:
+    v = json.load(open(p))
+    v["coverage"].setdefault("instrumented_stages", {})[sys.argv[1]] = sys.argv[2]
+    json.dump(v, open(p, "w"), indent=1)
+except Exception as e:
+    print("   (could not annotate evidence: %s)" % e, file=sys.stderr)
+PY
+}
 
 echo "== C14 thorough stage 1: stress on real threads" 1>&2
 VERIF_TIER=thorough ./target/release/c14 thorough || rc=$?
@@ -28,8 +42,10 @@ if RUSTFLAGS="-Zsanitizer=thread" cargo +nightly build -q -Zbuild-std --target x
         exit 1
     fi
     echo "   ThreadSanitizer run finished (exit $trc), no report" 1>&2
+    note_stage tsan "quick-sized stress run (scale 0.25) of the c14 binary built with -Zsanitizer=thread -Zbuild-std: no data race / lock-order report"
 else
     echo "   WARNING: ThreadSanitizer build not available here; stage skipped (inconclusive)" 1>&2
+    note_stage tsan "skipped: build not available"
     tail -3 target/c14/tsan_build.err 1>&2
 fi
 
@@ -37,6 +53,7 @@ echo "== C14 thorough stage 3: Miri, seeded schedules" 1>&2
 if MIRIFLAGS="-Zmiri-many-seeds=0..16 -Zmiri-preemption-rate=0.05 -Zmiri-disable-isolation" \
      cargo +nightly miri run -q -p c14 --target-dir target/miri -- miri "$SEED" > target/c14/miri.out 2> target/c14/miri.err; then
     echo "   Miri: 16 seeds x fixed thread programs finished without report" 1>&2
+    note_stage miri "cargo miri run, -Zmiri-many-seeds=0..16 -Zmiri-preemption-rate=0.05, fixed 3-thread program (cache hit, misses, failing build, shared scanner): no UB / data race / deadlock, results equal to sequential"
 else
     if grep -q "Undefined Behavior\|data race\|deadlock\|^VIOLATION" target/c14/miri.err target/c14/miri.out; then
         cat target/c14/miri.err target/c14/miri.out > ../replays/C14/miri_report.txt
@@ -44,6 +61,7 @@ else
         exit 1
     fi
     echo "   WARNING: Miri stage could not run; stage skipped (inconclusive)" 1>&2
+    note_stage miri "skipped: could not run"
     tail -5 target/c14/miri.err 1>&2
 fi
 rm -rf target/tsan target/miri
